@@ -431,6 +431,18 @@ W8["layout"] = {
                ("types/10.graphql", ["Author:type"])],
     "queries": "split-each",
 }
+W8s = copy.deepcopy(W8)
+W8s["id"] = "W8s-multi-file-tree-one-file-under-two-names"
+W8s["defs"] += [{"name": "Mood", "kind": "enum", "sdl": "enum Mood {\n  HAPPY\n  SAD\n}"},
+                {"name": "Zeta", "kind": "enum", "sdl": "enum Zeta {\n  Z1\n  Z2\n}"},
+                {"name": "Alpha", "kind": "enum", "sdl": "enum Alpha {\n  A1\n}"},
+                {"name": "MoodFilter", "kind": "input", "sdl": "input MoodFilter {\n  mood: Mood = HAPPY\n  zeta: Zeta\n}"},
+                {"name": "AlphaFilter", "kind": "input", "sdl": "input AlphaFilter {\n  alpha: Alpha\n}"}]
+W8s["layout"] = {"schema": W8["layout"]["schema"] + [("moods/mood.graphql", ["Mood:enum", "MoodFilter:input"]), ("zeta.graphqls", ["Zeta:enum"]),
+                                                     ("a_first/alpha.gql", ["Alpha:enum", "AlphaFilter:input"])],
+                 "queries": W8["layout"]["queries"]}
+# the file moods/mood.graphql is also reachable as zz_links/zz_shared_link.gql (sorts last) and a_first/a_link.graphql (sorts first)
+W8s["layout_symlink"] = [("moods/mood.graphql", "zz_links/zz_shared_link.gql"), ("moods/mood.graphql", "a_first/a_link.graphql")]
 
 W9 = _world("W9-custom-operations", """
 scalar DateTime
@@ -460,6 +472,7 @@ type User implements Node {
   friends(first: Int = 10, orderBy: SortOrder, ids: [ID!]!): [User!]!
   createdAt: DateTime
   favorite: Account
+  search(term: String!, limit: Int): String
 }
 
 type Admin implements Node {
@@ -467,6 +480,7 @@ type Admin implements Node {
   firstName: String!
   permissionLevels: [Int!]!
   manages: Account
+  search(term: Int!, limit: [Int!]): String
 }
 
 union Account = User | Admin
@@ -853,7 +867,7 @@ W14 = W14 + [_world("W14c-schema-types-differing-only-in-case", _W14C_SDL, _W14C
 
 
 def all_worlds() -> List[dict]:
-    return [W1, W2, W2b, W3, W4, W5, W7, W8, W9, W9k, W15] + W10 + W11 + W12 + W13 + W14
+    return [W1, W2, W2b, W3, W4, W5, W7, W8, W8s, W9, W9k, W15] + W10 + W11 + W12 + W13 + W14
 
 
 def by_id(wid: str) -> dict:
